@@ -53,7 +53,8 @@ def check(ctx):
     drive(drv, "replay", [])
     drive(drv, "dfs", ["-bound", "2" if quick else "3", "-maxruns", "60000" if quick else "400000"])
     drive(drv, "random", ["-runs", "3000" if quick else "100000"])
-    drive(free, "free", ["-runs", "300" if quick else "5000"])
+    big = ctx.path("big.ndjson")
+    drive(free, "free", ["-runs", "300" if quick else "5000", "-big", big])
     stalled = sum(r["counters"].get("stalled_runs", 0) for r in results.values())
     if stalled:
         # the implementation blocks in a primitive the shims do not model (e.g. a channel): controlled execution was
@@ -66,6 +67,20 @@ def check(ctx):
     # 3. TLC validates every distinct observable trace against the L1 contract
     recs, bad, vres = validate_traces(ctx, "parwork", "Trace_ParWork.tla", "Trace_ParWork.cfg", trace_files)
     violations = race_violations(rdir, "free runs of the unsubstituted par.Work")
+    # 3b. the runs that are too large for an event trace: TLC judges their counters
+    nbig = 0
+    if os.path.exists(big) and os.path.getsize(big) > 0:
+        bres = tlc(ctx, "parwork", "Trace_ParWorkBig.tla", "Trace_ParWorkBig.cfg", files=[big], workers=1, timeout=300, name="big")
+        require_tlc_ok(bres, "validation of the large runs (the laws print BAD lines)")
+        bigrecs = [json.loads(l) for l in open(big) if l.strip()]
+        nbig = len(bigrecs)
+        for idx, invs in sorted(bad_traces(bres).items()):
+            rec = bigrecs[idx - 1]
+            violations.append(dict(kind="l1-rejected:" + ",".join(sorted(invs)),
+                                   what="the contract rejects a run of the real par.Work with n=%d in which one item adds %d others and each of those adds an "
+                                        "earlier one again: %d calls of f for %d distinct items, at most %d for one item, at most %d in progress, end=%s (%s)"
+                                        % (rec["n"], rec["items"] - 1, rec["fcalls"], rec["items"], rec["maxper"], rec["maxinprog"], rec["end"], ",".join(sorted(invs))),
+                                   input=rec, **{"class": "%s|big|n=%d" % (",".join(sorted(invs)), rec["n"])}))
     for idx, invs in sorted(bad.items()):
         rec = json.loads(recs[idx - 1])
         evs = " ".join("%s(%s,%s)" % (e["e"], e["r"], e["x"]) for e in rec["events"])
